@@ -152,7 +152,7 @@ def check_client(c, world, case, ev_times, ev_done, submissions, quiet_points, v
         hi = fr["t_done"] if fr["t_done"] is not None else 10 ** 12
         return [s for s in notices if fr["t_deliver"] <= s <= hi]
 
-    alive_at_quiet = not c.disconnected and c.closed is None
+    alive_at_quiet = world.final.get("alive", {}).get(c.idx, False)
     for sid, frs in by_id.items():
         req_frs = [f for f in frs if f["msg"][0] == "REQ"]
         if not req_frs:
@@ -221,9 +221,13 @@ def check_client(c, world, case, ev_times, ev_done, submissions, quiet_points, v
                             break
     # non-string ids: each such REQ needs a NOTICE in its interval or a floating EOSE after it
     used = set()
+    last_of = {}
+    for fr in reqs:
+        if not isinstance(fr["msg"][1], str):
+            last_of[json.dumps(fr["msg"][1], sort_keys=True)] = fr     # earlier ones were replaced
     for fr in reqs:
         m = fr["msg"]
-        if isinstance(m[1], str):
+        if isinstance(m[1], str) or last_of.get(json.dumps(m[1], sort_keys=True)) is not fr:
             continue
         probes["nonstring_id_reqs"] += 1
         if notice_in(fr):
